@@ -177,6 +177,30 @@ def run(chk):
                         "else out_str \"throw\")" % (mlp, mpt(q)),
                         {"kind": "bezcp", "points": pts, "query": q})
             plan.append(("bezcp", ic, pts, q, ib, abs(off)))
+    # aimed: a symmetric bend; on its convex side the foot of a point on the axis of symmetry is exactly the middle coordinate
+    # (the Newton iterations of the two adjacent segments end at 1 + O(eps) and 0 - O(eps))
+    for _ in range(8 if quick else 80):
+        ox, oy = rng.choice([0.0, 65536.0, -131072.0]), rng.choice([0.0, 262144.0])
+        a, b = float(rng.choice([50, 100, 150, 300])) * 1024.0, float(rng.choice([200, 300, 500])) * 1024.0
+        sx = rng.choice([-1.0, 1.0])
+        pts = [(ox + sx * a, oy - b), (ox, oy), (ox + sx * a, oy + b)]
+        if rng.random() < 0.4:
+            pts = [(pts[0][0] + sx * a, pts[0][1] - b)] + pts + [(pts[2][0] + sx * a, pts[2][1] + b)]
+        n = len(pts)
+        pl = "%d %s" % (n, " ".join(fhex(p[0]) + " " + fhex(p[1]) for p in pts))
+        mlp = mlist([mpt(p) for p in pts])
+        ib = cs.raw("bez c " + pl,
+                    "let () = (let b = bezier_build n %s in out_vec (b.bz_angles @ List.concat_map (fun ((a,b),(c,d)) -> [a;b;c;d]) b.bz_ctrl))" % mlp,
+                    {"kind": "bez", "points": pts})
+        plan.append(("bez", ib, pts))
+        for h in (1.0, 1024.0, 10240.0, 51200.0, 102400.0, 204800.0, 350.0 * 1024):
+            q = (ox - sx * h, oy)
+            ic = cs.raw("bezcp c %s %s %s" % (pl, fhex(q[0]), fhex(q[1])),
+                        "let () = (let r = closest_point_cartesian n (bezier_build n %s) %s in "
+                        "if r.cl_found then out_vec [r.cl_distance; r.cl_fraction; float_of_int (int_of_nat r.cl_index); fst r.cl_point; snd r.cl_point; fst r.cl_normal; snd r.cl_normal] "
+                        "else out_str \"throw\")" % (mlp, mpt(q)),
+                        {"kind": "bezcp", "points": pts, "query": q, "aimed": "foot is the middle coordinate"})
+            plan.append(("bezcp", ic, pts, q, ib, -h))
     # ---------------- Bezier, spherical closest point (haversine Newton with line search) -------------------
     for _ in range(30 if quick else 400):
         n = rng.choice([2, 2, 3, 4, 5])
@@ -258,6 +282,10 @@ def run(chk):
                 continue
             dist, frac, idx, px, py = v[0], v[1], int(v[2]), v[3], v[4]
             if math.isinf(dist):
+                if off < 0:
+                    # the aimed family: the foot is the middle coordinate, at distance -off
+                    viol.append(("no closest point is reported for a point on the convex side of a bend whose foot is a trench coordinate %.0f m away" % -off, cs.describe(i)))
+                    continue
                 chk.count("closest point: none reported")
                 continue
             ctrl = ctrl_of[ib]
